@@ -239,7 +239,9 @@ namespace nmtools::array
                         at(shape,i) = 1;
                     }
                 }
+                NMTOOLS_VERIF_EVENT(::nmtools::verif::placeholder_begin());
                 at(shape,meta::ct_v<-1>) = len(buffer);
+                NMTOOLS_VERIF_EVENT(::nmtools::verif::placeholder_end());
                 return shape;
             }
         }
